@@ -12,16 +12,21 @@ RULE = ("call sequences of 1-14 steps drawn from an evolving fake kernel: 1-4 de
         "/proc/net/dev and /proc/diskstats); per step every counter goes up, stays, goes backwards (to a smaller value or 0), "
         "devices vanish / reappear / all vanish, cache_clear(name) / cache_clear() are interleaved, nowrap and pernic/perdisk "
         "alternate, two function names are interleaved; values include 2^32-1, 2^64-1, 10^20; steps are executed on two real "
-        "threads in a scripted alternation, and two free-running threads drive the two names concurrently. Malformed part: "
+        "threads in a scripted alternation, two free-running threads drive the two names concurrently, and two-thread schedules "
+        "(rounds of solo call | clear | two overlapping calls whose wrap steps come in either order; the platform read is replaced "
+        "by a scripted kernel and is the pre-emption point; monotone and wrapping kernels) are replayed deterministically. Malformed part: "
         "tuples changing width (IndexError). Exhaustive part: all sequences over one device x 1 counter with readings "
         "{absent,0,1,2} and cache_clear. A case is non-trivial when it has at least two nowrap=True calls under one name; "
         "distinct = distinct canonical case hash.")
 TRUSTED = ["correspondence harness props/C10.py + pv/ (fake /proc/net/dev, /proc/diskstats, /sys/block through pv.shim, thread hand-off)",
            "hand-written model coq/C10/Model.v of _WrapNumbers and the two callers (tied by the correspondence run only)",
            "the reading of the property text as the ghost specification coq/C10/Spec.v"]
-ASSUMPTIONS = ["run() and cache_clear() are atomic (they execute under _WrapNumbers.lock); the snapshot history of a name is the order "
-               "in which run() receives the snapshots -- the read of /proc happens outside the lock (see notes/design/C10.md, observation)",
-               "the three dicts of _WrapNumbers are keyed by the same names (modelled as one map)",
+ASSUMPTIONS = ["run() and cache_clear() are atomic (they execute under _WrapNumbers.lock); a nowrap=True public call holds "
+               "_nowrap_lock from its platform read to the end of its wrap step (commit 3202409) -- the locks themselves are "
+               "exercised by the threaded cases, not proved",
+               "two threads: a cache_clear() overlapping a nowrap=True call in flight may be ordered either way and is left out of "
+               "the two-thread theorem and of the generated schedules",
+               "the three dicts of _WrapNumbers are keyed by the same names (modelled as one map; checked on every cache_info())",
                "CPython dict/defaultdict/set/int semantics are modelled, not verified",
                "device present = key present in the dict passed under that name (alternating perdisk changes the key set: observation)"]
 EXHAUSTIVE = {"quick": "all 780 sequences of length <=4 over one device, one counter, readings {absent,0,1,2} + cache_clear",
@@ -33,7 +38,7 @@ LEGACY_EMPTY = False
 # model of record for the two-thread cases: False = code as it is now (platform read outside any lock: every
 # well-formed schedule is realisable); True = after notes/fixes/C10-read-under-lock.diff (_nowrap_lock held
 # from the read to the end of the wrap step: an overlapping nowrap=True read waits)
-LOCKED = False
+LOCKED = True
 SHARD = 120
 
 NET_NAMES = ["lo", "eth0", "wlan0", "eth0:1", "a:b"]
@@ -799,7 +804,10 @@ MANIFEST = {
             "afresh, clear forgets, first call raw, names are independent (frame), nowrap=False is raw and leaves the state alone. For the "
             "public functions (code after the repair e278b23) the same holds for EVERY sequence, including listings with no device at all "
             "(a device coming back after every device had gone starts afresh); the code before the repair is refuted with a witness "
-            "(fixed finding nowrap-empty-snapshot, replayed from corpus/C10 on every run). The model is tied to the code "
+            "(fixed finding nowrap-empty-snapshot, replayed from corpus/C10 on every run). Two threads with every call split into platform "
+            "read and wrap step: under _nowrap_lock (3202409) every schedule answers what the raw kernel readings in read order demand; "
+            "without the lock a witness schedule answers 350 for a reading of 150 (fixed finding read-outside-lock, replayed from corpus/C10 "
+            "with real threads and a pre-empting platform read). The model is tied to the code "
             "by running the real psutil (direct API and public API over generated /proc/net/dev, /proc/diskstats) on generated and exhaustively "
             "enumerated sequences, on two scripted alternating threads and two free-running threads, comparing every answer and cache_info().",
     "note": "Trusted: Coq kernel + vm_compute; hand-written model coq/C10/Model.v (tied by the correspondence run only); the ghost "
